@@ -96,9 +96,9 @@ fn json_to_val(v: &serde_json::Value, ty: FT) -> Val {
 #[derive(Clone, Debug)]
 struct FDef { name: String, ty: FT, nullable: bool, default: Option<Val>, phase2: bool, short: String }
 #[derive(Clone, Debug)]
-struct Model { ns: Option<String>, fields: Vec<FDef>, eshort: String, uniq0: bool } // uniq0: field 0 is an Integer with a different value on every row
+struct Model { ns: Option<String>, fields: Vec<FDef>, eshort: String, uniq0: bool, name: Option<String> } // uniq0: field 0 is an Integer with a different value on every row
 impl Model {
-    fn ename(&self) -> String { match &self.ns { Some(n) => format!("{}.P", n), None => "P".into() } }
+    fn ename(&self) -> String { if let Some(n) = &self.name { return n.clone(); } match &self.ns { Some(n) => format!("{}.P", n), None => "P".into() } }
     fn text(&self, phase2: bool) -> String {
         let mut fs = vec![];
         for f in &self.fields {
@@ -147,7 +147,8 @@ impl QSpec {
     }
     fn ref_field(&self, r: &FRef) -> usize { match r { FRef::Name(i) => *i, FRef::Alias(k) => self.sel[*k].field } }
     fn sel_name(&self, m: &Model, k: usize) -> String { self.sel[k].alias.clone().unwrap_or(m.fields[self.sel[k].field].name.clone()) }
-    fn text(&self, m: &Model) -> String {
+    /// the parameters between ( ) and the selected fields, as text
+    fn parts(&self, m: &Model) -> (Vec<String>, Vec<String>) {
         let mut ps: Vec<String> = self.filters.iter().map(|f| format!("{} {} {}", self.ref_name(m, &f.r), OPS[f.op], f.v.text())).collect();
         let mut extra = vec![];
         if !self.order.is_empty() {
@@ -163,6 +164,10 @@ impl QSpec {
         let mut sh = self.shuffle;
         for e in extra { let pos = (sh % (ps.len() as u64 + 1)) as usize; sh /= 7; ps.insert(pos, e); }
         let fields: Vec<String> = self.sel.iter().map(|s| match &s.alias { Some(a) => format!("{}: {}", a, m.fields[s.field].name), None => m.fields[s.field].name.clone() }).collect();
+        (ps, fields)
+    }
+    fn text(&self, m: &Model) -> String {
+        let (ps, fields) = self.parts(m);
         format!("query {{ {}{} {} {{ {} }} }}",
             match &self.alias { Some(a) => format!("{}: ", a), None => String::new() }, m.ename(),
             if ps.is_empty() { String::new() } else { format!("({})", ps.join(", ")) }, fields.join(" "))
@@ -348,7 +353,7 @@ fn gen_model(rng: &mut Rng) -> Model {
     }
     let uniq0 = rng.chance(1, 2);
     if uniq0 { fields[0] = FDef { name: "f0".into(), ty: FT::Int, nullable: false, default: None, phase2: false, short: String::new() }; }
-    Model { ns: if rng.chance(1, 3) { Some("ns".into()) } else { None }, fields, eshort: String::new(), uniq0 }
+    Model { ns: if rng.chance(1, 3) { Some("ns".into()) } else { None }, fields, eshort: String::new(), uniq0, name: None }
 }
 
 fn build_world(rng: &mut Rng, mut model: Model, nrows: usize, explicit: Option<Vec<(bool, Vec<Option<Val>>)>>) -> World {
@@ -534,11 +539,11 @@ fn gen_query(rng: &mut Rng, w: &World, for_pages: bool) -> (QSpec, Vec<(String, 
 
 // ---------------------------------------------------------------- cases
 #[derive(Default)]
-struct Stats { nonempty: usize, with_filter: usize, with_order: usize, with_paging: usize, errors: usize, parse_errors: usize, queries: usize, pages_cases: usize, pages_total: usize, pages_complete: usize }
+struct Stats { nonempty: usize, with_filter: usize, with_order: usize, with_paging: usize, errors: usize, parse_errors: usize, queries: usize, pages_cases: usize, pages_total: usize, pages_complete: usize, nested: usize, nested_nonempty: usize }
 impl Stats {
     fn json(&self) -> serde_json::Value {
         json!({"queries": self.queries, "non_empty": self.nonempty, "with_filter": self.with_filter, "ordered": self.with_order, "paged": self.with_paging,
-               "engine_errors": self.errors, "parse_errors": self.parse_errors, "paging_runs": self.pages_cases, "pages": self.pages_total, "paging_runs_to_empty_page": self.pages_complete})
+               "engine_errors": self.errors, "parse_errors": self.parse_errors, "paging_runs": self.pages_cases, "pages": self.pages_total, "paging_runs_to_empty_page": self.pages_complete, "nested_queries": self.nested, "nested_non_empty": self.nested_nonempty})
     }
 }
 
@@ -577,7 +582,7 @@ fn qspec(sel: Vec<Sel>) -> QSpec { QSpec { alias: None, sel, filters: vec![], or
 fn directed_world(rng: &mut Rng) -> World {
     // fields: 0 name:String, 1 k:Integer nullable, 2 t:String nullable | added later: 3 b:Boolean default true,
     //         4 s:String default "dd", 5 i:Integer default 1, 6 q:String default "it's"
-    let model = Model { ns: None, eshort: String::new(), uniq0: false, fields: vec![
+    let model = Model { ns: None, eshort: String::new(), uniq0: false, name: None, fields: vec![
         fdef("name", FT::Str, false, None, false), fdef("k", FT::Int, true, None, false), fdef("t", FT::Str, true, None, false),
         fdef("b", FT::Bool, false, Some(Val::Bool(true)), true), fdef("s", FT::Str, false, Some(Val::Str("dd".into())), true),
         fdef("i", FT::Int, false, Some(Val::Int(1)), true), fdef("q", FT::Str, false, Some(Val::Str("it's".into())), true)] };
@@ -656,6 +661,369 @@ fn directed(out: &mut Buf, st: &mut Stats, rng: &mut Rng) {
     }
 }
 
+/// paging over 3 and 4 order keys: small value domains (many ties on the leading / middle keys), the whole
+/// tuple unique, mixed directions; driven to exhaustion with several page sizes, and single after / before
+/// queries whose cursor is (a prefix of) the key tuple of a stored row
+fn dense_paging(out: &mut Buf, st: &mut Stats, rng: &mut Rng, worlds: usize) {
+    for wi in 0..worlds {
+        let nk = 3 + (wi % 2);
+        let fields: Vec<FDef> = (0..nk).map(|i| fdef(&format!("k{}", i), FT::Int, false, None, false)).collect();
+        let model = Model { ns: None, eshort: String::new(), uniq0: false, name: None, fields };
+        // distinct tuples over {0,1,2}^nk, dense on the leading keys
+        let mut tuples: Vec<Vec<i64>> = vec![];
+        let nrows = 7 + rng.below(4) as usize;
+        while tuples.len() < nrows {
+            let t: Vec<i64> = (0..nk).map(|i| if i == 0 { rng.range(0, 1) } else { rng.range(0, 2) }).collect();
+            if !tuples.contains(&t) { tuples.push(t); }
+        }
+        let plan = tuples.iter().map(|t| (false, t.iter().map(|v| Some(Val::Int(*v))).collect())).collect();
+        let w = build_world(rng, model, 0, Some(plan));
+        for _ in 0..3 {
+            let mut q = qspec((0..nk).map(|i| sel(i, None)).collect());
+            let mut keys: Vec<usize> = (0..nk).collect();
+            for i in (1..nk).rev() { let j = rng.below(i as u64 + 1) as usize; keys.swap(i, j); }
+            q.order = keys.iter().map(|k| OKey { r: FRef::Name(*k), desc: rng.chance(1, 2) }).collect();
+            for n in [1, 2, 3] { push_pages(out, st, &w, &q, &[], n, "pages-dense"); }
+            for _ in 0..4 {
+                let row = &w.rows[rng.below(w.rows.len() as u64) as usize];
+                let len = 1 + rng.below(nk as u64) as usize;
+                let mut ps = vec![];
+                let vs: Vec<Opnd> = keys.iter().take(len).enumerate().map(|(j, k)| {
+                    if rng.chance(1, 2) { Opnd::Lit(row[*k].clone()) } else { ps.push((format!("c{}", j), row[*k].clone())); Opnd::Var(format!("c{}", j)) }
+                }).collect();
+                let mut q1 = q.clone();
+                q1.paging = if rng.chance(1, 2) { Paging::After(vs) } else { Paging::Before(vs) };
+                if rng.chance(1, 2) { q1.first = Opnd::Lit(Val::Int(rng.range(1, 4))); }
+                push_query(out, st, &w, &q1, &ps, "query-dense", false);
+            }
+        }
+    }
+}
+
+
+// ---------------------------------------------------------------- tier T2: nested entity / array references
+#[derive(Clone, Debug)]
+struct RefField { name: String, target: usize, array: bool, nullable: bool, short: String }
+#[derive(Clone, Debug)]
+struct NEntity { name: String, scalars: Model, refs: Vec<RefField> }
+#[derive(Clone, Debug)]
+struct NNode { vals: Vec<Val>, refs: Vec<Vec<NNode>> }
+#[derive(Clone, Debug)]
+struct NSub { name: String, alias: Option<String>, ref_idx: usize, nullable_here: bool, q: NQuery }
+#[derive(Clone, Debug)]
+struct NQuery { ent: usize, base: QSpec, subs: Vec<NSub> }
+
+fn nmodel_text(ents: &[NEntity]) -> String {
+    let mut es = vec![];
+    for e in ents {
+        let mut fs = vec![];
+        for f in &e.scalars.fields {
+            let ty = match f.ty { FT::Bool => "Boolean", FT::Int => "Integer", FT::Flt => "Float", FT::Str => "String" };
+            fs.push(format!("{}: {}{}", f.name, ty, if f.nullable { " nullable" } else { "" }));
+        }
+        for r in &e.refs {
+            let t = &ents[r.target].name;
+            fs.push(format!("{}: {}{}", r.name, if r.array { format!("[{}]", t) } else { t.clone() }, if r.nullable { " nullable" } else { "" }));
+        }
+        es.push(format!("{} {{ {} }}", e.name, fs.join(", ")));
+    }
+    format!("{{ {} }}", es.join(" "))
+}
+fn nnode_mutation(ents: &[NEntity], ent: usize, n: &NNode) -> String {
+    let e = &ents[ent];
+    let mut fs = vec![];
+    for (i, v) in n.vals.iter().enumerate() { if *v != Val::Null { fs.push(format!("{}: {}", e.scalars.fields[i].name, v.text())); } }
+    for (ri, r) in e.refs.iter().enumerate() {
+        let kids = &n.refs[ri];
+        if kids.is_empty() { continue; }
+        if r.array { fs.push(format!("{}: [{}]", r.name, kids.iter().map(|k| format!("{{ {} }}", nnode_mutation(ents, r.target, k))).collect::<Vec<_>>().join(", "))); }
+        else { fs.push(format!("{}: {{ {} }}", r.name, nnode_mutation(ents, r.target, &kids[0]))); }
+    }
+    fs.join(" ")
+}
+fn nnode_coq(n: &NNode) -> String {
+    format!("(Node {} {})", glist(&n.vals.iter().map(|v| v.coq()).collect::<Vec<_>>()),
+        glist(&n.refs.iter().map(|l| glist(&l.iter().map(nnode_coq).collect::<Vec<_>>())).collect::<Vec<_>>()))
+}
+impl NQuery {
+    fn inner_text(&self, ents: &[NEntity], nullable_names: &[String]) -> (String, String) {
+        let e = &ents[self.ent];
+        let (mut ps, mut fields) = self.base.parts(&e.scalars);
+        if !nullable_names.is_empty() { ps.push(format!("nullable({})", nullable_names.join(", "))); }
+        for sub in &self.subs {
+            let nn: Vec<String> = sub.q.subs.iter().filter(|x| x.nullable_here).map(|x| x.alias.clone().unwrap_or(x.name.clone())).collect();
+            let (sp, sf) = sub.q.inner_text(ents, &nn);
+            fields.push(format!("{}{} {} {{ {} }}", match &sub.alias { Some(a) => format!("{}: ", a), None => String::new() }, sub.name, sp, sf));
+        }
+        (if ps.is_empty() { String::new() } else { format!("({})", ps.join(", ")) }, fields.join(" "))
+    }
+    fn text(&self, ents: &[NEntity]) -> String {
+        let nn: Vec<String> = self.subs.iter().filter(|x| x.nullable_here).map(|x| x.alias.clone().unwrap_or(x.name.clone())).collect();
+        let (ps, fs) = self.inner_text(ents, &nn);
+        format!("query {{ {} {} {{ {} }} }}", ents[self.ent].name, ps, fs)
+    }
+    fn coq(&self, ents: &[NEntity]) -> String {
+        let e = &ents[self.ent];
+        let subs: Vec<String> = self.subs.iter().map(|s| {
+            let r = &e.refs[s.ref_idx];
+            format!("(Build_subinfo {} {} {} {} {}, {})", gstr(s.alias.as_ref().unwrap_or(&s.name)), s.ref_idx, gstr(&r.short), gb(r.array), gb(r.nullable || s.nullable_here), s.q.coq(ents))
+        }).collect();
+        format!("(Q2 {} {} {})", e.scalars.coq(), self.base.coq(), glist(&subs))
+    }
+    fn enc_rows(&self, ents: &[NEntity], arr: &[serde_json::Value], o: &mut Vec<i64>) {
+        o.push(arr.len() as i64);
+        for v in arr { self.enc_obj(ents, v, o); }
+    }
+    fn enc_obj(&self, ents: &[NEntity], v: &serde_json::Value, o: &mut Vec<i64>) {
+        let e = &ents[self.ent];
+        let obj = match v.as_object() { Some(x) => x, None => { o.push(-7); return; } };
+        o.push(5); o.push((self.base.sel.len() + self.subs.len()) as i64);
+        if obj.len() != self.base.sel.len() + self.subs.len() { o.push(-8); }
+        for k in 0..self.base.sel.len() {
+            match obj.get(&self.base.sel_name(&e.scalars, k)) { Some(x) => json_to_val(x, e.scalars.fields[self.base.sel[k].field].ty).enc(o), None => o.push(-9) }
+        }
+        for s in &self.subs {
+            let key = s.alias.clone().unwrap_or(s.name.clone());
+            let r = &e.refs[s.ref_idx];
+            match obj.get(&key) {
+                None => o.push(-9),
+                Some(x) => if r.array {
+                    match x.as_array() { Some(a) => { o.push(6); s.q.enc_rows(ents, a, o); } None => o.push(-10) }
+                } else if x.is_null() { o.push(0) } else { s.q.enc_obj(ents, x, o) },
+            }
+        }
+    }
+}
+
+struct NWorld { dm: DataModel, conn: Connection, ents: Vec<NEntity>, top: Vec<NNode> }
+
+fn build_nworld(rng: &mut Rng) -> NWorld {
+    let scal = |prefix: &str, rng: &mut Rng| -> Model {
+        let mut fields = vec![fdef(&format!("{}name", prefix), FT::Str, false, None, false), fdef(&format!("{}a", prefix), FT::Int, false, None, false)];
+        if rng.chance(1, 2) { fields.push(fdef(&format!("{}b", prefix), FT::Int, true, None, false)); }
+        Model { ns: None, eshort: String::new(), uniq0: false, name: None, fields }
+    };
+    let ents = vec![
+        NEntity { name: "P".into(), scalars: scal("p", rng), refs: vec![
+            RefField { name: "kids".into(), target: 1, array: true, nullable: rng.chance(1, 3), short: String::new() },
+            RefField { name: "one".into(), target: 1, array: false, nullable: rng.chance(1, 3), short: String::new() }] },
+        NEntity { name: "C".into(), scalars: scal("c", rng), refs: vec![
+            RefField { name: "toys".into(), target: 2, array: true, nullable: rng.chance(1, 3), short: String::new() },
+            RefField { name: "pal".into(), target: 2, array: false, nullable: rng.chance(1, 2), short: String::new() }] },
+        NEntity { name: "D".into(), scalars: scal("d", rng), refs: vec![] },
+    ];
+    fn gen_node(rng: &mut Rng, ents: &[NEntity], ent: usize, counter: &mut usize) -> NNode {
+        let e = &ents[ent];
+        *counter += 1;
+        let vals = e.scalars.fields.iter().enumerate().map(|(i, f)| match i {
+            0 => Val::Str(format!("{}{}", e.name.to_lowercase(), counter)),
+            _ => if f.nullable && rng.chance(1, 3) { Val::Null } else { Val::Int(rng.range(0, 2)) },
+        }).collect();
+        let refs = e.refs.iter().map(|r| {
+            let n = if r.array { match rng.below(6) { 0 => 0, 1 => 1, 2 => 2, 3 => 3, 4 => 4, _ => 2 } } else { rng.below(2) as usize };
+            (0..n).map(|_| gen_node(rng, ents, r.target, counter)).collect()
+        }).collect();
+        NNode { vals, refs }
+    }
+    let mut counter = 0;
+    let nparents = 4 + rng.below(3) as usize;
+    let forest: Vec<NNode> = (0..nparents).map(|_| gen_node(rng, &ents, 0, &mut counter)).collect();
+    nworld_from(ents, forest)
+}
+
+fn nworld_from(mut ents: Vec<NEntity>, forest: Vec<NNode>) -> NWorld {
+    let mut dm = DataModel::new();
+    dm.update(&nmodel_text(&ents)).unwrap_or_else(|e| panic!("nested model: {} : {}", nmodel_text(&ents), e));
+    for e in ents.iter_mut() {
+        e.scalars.name = Some(e.name.clone());
+        let ent = dm.get_entity(&e.name).unwrap();
+        e.scalars.eshort = ent.short_name.clone();
+        for f in e.scalars.fields.iter_mut() { f.short = ent.get_field(&f.name).unwrap().short_name.clone(); }
+        for r in e.refs.iter_mut() { r.short = ent.get_field(&r.name).unwrap().short_name.clone(); }
+    }
+    // Model::ename() is "P": give each level its own name through ns-less override below
+    let conn = Connection::open_in_memory().unwrap();
+    prepare_connection(&conn).unwrap();
+    for n in &forest {
+        mutate(&conn, &dm, &format!("mutate {{ P {{ {} }} }}", nnode_mutation(&ents, 0, n)), Parameters::new());
+    }
+    // read the forest back: rows by (mdate, rowid), children by the order of the edges (src, label, dest)
+    let mut st = conn.prepare("SELECT id, _entity, _json FROM _node ORDER BY mdate, rowid").unwrap();
+    let rows: Vec<(Vec<u8>, String, Option<String>)> = st.query_map([], |r| Ok((r.get(0)?, r.get(1)?, r.get(2)?))).unwrap().map(|x| x.unwrap()).collect();
+    drop(st);
+    let mut st = conn.prepare("SELECT src, label, dest FROM _edge ORDER BY src, label, dest").unwrap();
+    let edges: Vec<(Vec<u8>, String, Vec<u8>)> = st.query_map([], |r| Ok((r.get(0)?, r.get(1)?, r.get(2)?))).unwrap().map(|x| x.unwrap()).collect();
+    drop(st);
+    fn read_node(ents: &[NEntity], ent: usize, id: &[u8], rows: &[(Vec<u8>, String, Option<String>)], edges: &[(Vec<u8>, String, Vec<u8>)]) -> NNode {
+        let e = &ents[ent];
+        let row = rows.iter().find(|r| r.0 == id).expect("row of an edge");
+        let v: serde_json::Value = serde_json::from_str(row.2.as_deref().unwrap_or("{}")).unwrap();
+        let obj = v.as_object().unwrap();
+        let vals = e.scalars.fields.iter().map(|f| obj.get(&f.short).map(|x| json_to_val(x, f.ty)).unwrap_or(Val::Null)).collect();
+        let refs = e.refs.iter().map(|r| edges.iter().filter(|ed| ed.0 == id && ed.1 == r.short).map(|ed| read_node(ents, r.target, &ed.2, rows, edges)).collect()).collect();
+        NNode { vals, refs }
+    }
+    let mut top: Vec<NNode> = rows.iter().filter(|r| r.1 == ents[0].scalars.eshort).map(|r| read_node(&ents, 0, &r.0, &rows, &edges)).collect();
+    // the order in which the engine scans the children of a row (no ORDER BY) is taken from the engine itself,
+    // like the storage order of the top-level rows: a plain nested query with every reference nullable
+    let plain = "query { P (nullable(kids, one)) { pname kids (nullable(toys, pal)) { cname toys { dname } pal { dname } } one (nullable(toys, pal)) { cname toys { dname } pal { dname } } } }";
+    let qp = QueryParser::parse(plain, &dm).unwrap();
+    let pq = PreparedQueries::build(&qp).unwrap();
+    let mut sql = Query { parameters: Parameters::new(), parser: Arc::new(qp), sql_queries: Arc::new(pq) };
+    let v: serde_json::Value = serde_json::from_str(&sql.read(&conn).unwrap()).unwrap();
+    fn reorder(n: &mut NNode, v: &serde_json::Value, keys: &[&[(&str, &str)]], depth: usize) {
+        if depth >= keys.len() { return; }
+        for (ri, (rname, cname)) in keys[depth].iter().enumerate() {
+            let order: Vec<String> = match v.get(*rname) {
+                Some(serde_json::Value::Array(a)) => a.iter().map(|x| x.get(*cname).and_then(|s| s.as_str()).unwrap_or("").to_string()).collect(),
+                Some(serde_json::Value::Object(o)) => vec![o.get(*cname).and_then(|s| s.as_str()).unwrap_or("").to_string()],
+                _ => vec![],
+            };
+            if n.refs[ri].len() > 1 { assert_eq!(order.len(), n.refs[ri].len(), "plain nested query returns all children"); n.refs[ri].sort_by_key(|k| order.iter().position(|o| Val::Str(o.clone()) == k.vals[0]).unwrap()); }
+            for k in n.refs[ri].iter_mut() {
+                let name = match &k.vals[0] { Val::Str(s) => s.clone(), _ => String::new() };
+                let sub = match v.get(*rname) {
+                    Some(serde_json::Value::Array(a)) => a.iter().find(|x| x.get(*cname).and_then(|s| s.as_str()) == Some(&name)).cloned(),
+                    Some(o @ serde_json::Value::Object(_)) => Some(o.clone()),
+                    _ => None,
+                };
+                if let Some(sv) = sub { reorder(k, &sv, keys, depth + 1); }
+            }
+        }
+    }
+    let keys: [&[(&str, &str)]; 2] = [&[("kids", "cname"), ("one", "cname")], &[("toys", "dname"), ("pal", "dname")]];
+    let arr = v.get("P").and_then(|x| x.as_array()).unwrap().clone();
+    for (i, n) in top.iter_mut().enumerate() { reorder(n, &arr[i], &keys, 0); }
+    NWorld { dm, conn, ents, top }
+}
+
+fn gen_nquery(rng: &mut Rng, w: &NWorld, ent: usize, depth: usize, vg: &mut VarGen) -> NQuery {
+    let e = &w.ents[ent];
+    let m = &e.scalars;
+    let nf = m.fields.len();
+    let mut sel: Vec<Sel> = vec![Sel { field: 0, alias: None }];
+    for f in 1..nf { if rng.chance(2, 3) { sel.push(Sel { field: f, alias: if rng.chance(1, 4) { Some(format!("x{}{}", ent, f)) } else { None } }); } }
+    let mut q = qspec(sel);
+    q.shuffle = rng.next();
+    // filters on the scalars of this level
+    if rng.chance(if depth == 0 { 1 } else { 2 }, 4) {
+        let f = 1 + rng.below(nf as u64 - 1) as usize;
+        let aliased = q.sel.iter().position(|s| s.field == f && s.alias.is_some());
+        let r = match aliased { Some(k) if rng.chance(1, 2) => FRef::Alias(k), _ => FRef::Name(f) };
+        let v = Val::Int(rng.range(0, 2));
+        let o = if rng.chance(1, 3) { vg.var(rng, FT::Int, m.fields[f].nullable, v, None) } else { Opnd::Lit(v) };
+        q.filters.push(Filt { r, op: rng.below(6) as usize, v: o });
+    }
+    // order
+    if rng.chance(2, 3) {
+        let f = if rng.chance(1, 3) { 0 } else { 1 + rng.below(nf as u64 - 1) as usize };
+        q.order.push(OKey { r: FRef::Name(f), desc: rng.chance(1, 2) });
+        if f != 0 && rng.chance(1, 2) { q.order.push(OKey { r: FRef::Name(0), desc: rng.chance(1, 2) }); }
+    }
+    // first / skip
+    if rng.chance(1, 2) {
+        q.first = if rng.chance(1, 5) { vg.n += 1; let name = format!("n{}", vg.n); vg.params.push((name.clone(), Val::Int(rng.range(1, 3)))); Opnd::Var(name) } else { Opnd::Lit(Val::Int(rng.range(1, 3))) };
+        if rng.chance(1, 2) { q.skip = Some(Opnd::Lit(Val::Int(rng.range(0, 2)))); }
+    } else if rng.chance(1, 4) { q.skip = Some(Opnd::Lit(Val::Int(rng.range(1, 2)))); }
+    let mut subs = vec![];
+    if depth < 2 {
+        for (ri, r) in e.refs.iter().enumerate() {
+            if !rng.chance(if depth == 0 { 3 } else { 2 }, 4) { continue; }
+            let sq = gen_nquery(rng, w, r.target, depth + 1, vg);
+            subs.push(NSub { name: r.name.clone(), alias: if rng.chance(1, 5) { Some(format!("al{}{}", ent, ri)) } else { None }, ref_idx: ri,
+                             nullable_here: !r.nullable && rng.chance(1, 3), q: sq });
+        }
+    }
+    NQuery { ent, base: q, subs }
+}
+
+fn push_nested(out: &mut Buf, st: &mut Stats, w: &NWorld, q: &NQuery, ps: &[(String, Val)], kind: &str) {
+    let text = q.text(&w.ents);
+    let mut obs: Vec<i64> = vec![];
+    let mut note = String::new();
+    let mut sqltext = String::new();
+    match QueryParser::parse(&text, &w.dm) {
+        Err(e) => { obs.push(1); note = format!("parse: {}", e); st.parse_errors += 1; }
+        Ok(qp) => {
+            let pq = PreparedQueries::build(&qp).unwrap();
+            sqltext = norm_ws(&pq.sql_queries[0].sql_query);
+            hash_text(&sqltext, &mut obs);
+            let vo: Vec<(bool, String)> = pq.sql_queries[0].var_order.iter().map(|p| parse_param_debug(&format!("{:?}", p))).collect();
+            obs.push(vo.len() as i64);
+            for (i, s) in &vo { obs.push(*i as i64); enc_str(s, &mut obs); }
+            let mut p = Parameters::new();
+            for (n, v) in ps { v.add_to(&mut p, n); }
+            let mut sql = Query { parameters: p, parser: Arc::new(qp), sql_queries: Arc::new(pq) };
+            match sql.read(&w.conn) {
+                Err(e) => { obs.push(2); note = format!("read: {}", e); st.errors += 1; }
+                Ok(s) => {
+                    let v: serde_json::Value = serde_json::from_str(&s).expect("result is JSON");
+                    let arr = v.get(&w.ents[q.ent].name).and_then(|x| x.as_array()).expect("result array").clone();
+                    obs.push(0);
+                    q.enc_rows(&w.ents, &arr, &mut obs);
+                    st.nested += 1; if !arr.is_empty() { st.nested_nonempty += 1; }
+                }
+            }
+        }
+    }
+    let coq = format!("CNested {} {} {}", q.coq(&w.ents), glist(&w.top.iter().map(nnode_coq).collect::<Vec<_>>()), params_coq(ps));
+    out.push(Case { kind: kind.into(), coq, obs, meta: json!({"model": nmodel_text(&w.ents), "query": text, "params": format!("{:?}", ps), "sql": sqltext, "note": note}) });
+}
+
+/// directed: a non-nullable array reference with skip / first on the nested query: a parent with between 1 and
+/// `skip` children must be dropped (its nested result is empty), with nullable(..) it is kept with []
+fn nested_directed(out: &mut Buf, st: &mut Stats) {
+    let sc = |p: &str| Model { ns: None, eshort: String::new(), uniq0: false, name: None, fields: vec![fdef(&format!("{}name", p), FT::Str, false, None, false), fdef(&format!("{}a", p), FT::Int, false, None, false)] };
+    let ents = vec![
+        NEntity { name: "P".into(), scalars: sc("p"), refs: vec![
+            RefField { name: "kids".into(), target: 1, array: true, nullable: false, short: String::new() },
+            RefField { name: "one".into(), target: 1, array: false, nullable: true, short: String::new() }] },
+        NEntity { name: "C".into(), scalars: sc("c"), refs: vec![
+            RefField { name: "toys".into(), target: 2, array: true, nullable: false, short: String::new() },
+            RefField { name: "pal".into(), target: 2, array: false, nullable: true, short: String::new() }] },
+        NEntity { name: "D".into(), scalars: sc("d"), refs: vec![] }];
+    let d = |n: &str, a: i64| NNode { vals: vec![Val::Str(n.into()), Val::Int(a)], refs: vec![] };
+    let c = |n: &str, a: i64, toys: Vec<NNode>| NNode { vals: vec![Val::Str(n.into()), Val::Int(a)], refs: vec![toys, vec![]] };
+    let pn = |n: &str, a: i64, kids: Vec<NNode>, one: Vec<NNode>| NNode { vals: vec![Val::Str(n.into()), Val::Int(a)], refs: vec![kids, one] };
+    let forest = vec![
+        pn("ann", 1, vec![c("a1", 2, vec![d("t1", 0), d("t2", 1)]), c("a2", 1, vec![d("t3", 0)]), c("a3", 1, vec![])], vec![c("ao", 0, vec![])]),
+        pn("bob", 2, vec![c("b1", 5, vec![d("t4", 2)])], vec![]),
+        pn("cyd", 0, vec![], vec![c("co", 1, vec![d("t5", 1)])]),
+        pn("dan", 1, vec![c("d1", 0, vec![]), c("d2", 3, vec![d("t6", 0), d("t7", 0), d("t8", 1)])], vec![])];
+    let w = nworld_from(ents, forest);
+    let leaf = |ent: usize, sel: Vec<Sel>| NQuery { ent, base: qspec(sel), subs: vec![] };
+    let mk = |kq: NQuery, nullable_here: bool| NQuery { ent: 0, base: qspec(vec![sel(0, None)]), subs: vec![NSub { name: "kids".into(), alias: None, ref_idx: 0, nullable_here, q: kq }] };
+    let lit = |z: i64| Opnd::Lit(Val::Int(z));
+    // kids (skip 1): bob has one child -> dropped
+    let mut kq = leaf(1, vec![sel(0, None)]); kq.base.skip = Some(lit(1)); kq.base.first = lit(5);
+    push_nested(out, st, &w, &mk(kq.clone(), false), &[], "directed-nested-exists-skip");
+    push_nested(out, st, &w, &mk(kq, true), &[], "directed-nested-nullable-skip");
+    // kids (order_by(ca asc), first 1, skip 2): only ann has a third child
+    let mut kq = leaf(1, vec![sel(0, None), sel(1, None)]); kq.base.order = vec![OKey { r: FRef::Name(1), desc: false }]; kq.base.first = lit(1); kq.base.skip = Some(lit(2));
+    push_nested(out, st, &w, &mk(kq, false), &[], "directed-nested-exists-first-skip");
+    // kids (ca >= 2) { toys (skip 1) }: two levels of EXISTS
+    let mut tq = leaf(2, vec![sel(0, None)]); tq.base.skip = Some(lit(1)); tq.base.first = lit(9);
+    let mut kq = leaf(1, vec![sel(0, None)]); kq.base.filters = vec![Filt { r: FRef::Name(1), op: 5, v: lit(2) }];
+    kq.subs = vec![NSub { name: "toys".into(), alias: None, ref_idx: 0, nullable_here: false, q: tq }];
+    push_nested(out, st, &w, &mk(kq, false), &[], "directed-nested-two-levels");
+    // an entity reference: first / skip of the nested query are not used (LIMIT 1)
+    let mut oq = leaf(1, vec![sel(0, None)]); oq.base.skip = Some(lit(1)); oq.base.first = lit(3);
+    let q = NQuery { ent: 0, base: qspec(vec![sel(0, None)]), subs: vec![NSub { name: "one".into(), alias: Some("o".into()), ref_idx: 1, nullable_here: false, q: oq }] };
+    push_nested(out, st, &w, &q, &[], "directed-nested-entity-ref");
+}
+
+fn nested_cases(out: &mut Buf, st: &mut Stats, rng: &mut Rng, worlds: usize, per_world: usize) {
+    nested_directed(out, st);
+    for _ in 0..worlds {
+        let w = build_nworld(rng);
+        for _ in 0..per_world {
+            let mut vg = VarGen { params: vec![], by_type: BTreeMap::new(), n: 0 };
+            let q = gen_nquery(rng, &w, 0, 0, &mut vg);
+            push_nested(out, st, &w, &q, &vg.params, "nested");
+        }
+    }
+}
+
 fn main() {
     let mut rng = Rng::from_env();
     let mut real_out = Out::create();
@@ -673,6 +1041,8 @@ fn main() {
         for _ in 0..per_world_q { let (q, ps) = gen_query(&mut r, &w, false); push_query(&mut out, &mut st, &w, &q, &ps, "query", false); }
         for _ in 0..per_world_p { let (q, ps) = gen_query(&mut r, &w, true); if q.order.is_empty() { continue; } let n = r.range(1, 3); push_pages(&mut out, &mut st, &w, &q, &ps, n, "pages"); }
     }
+    dense_paging(&mut out, &mut st, &mut rng, scale(8, 120));
+    nested_cases(&mut out, &mut st, &mut rng, scale(30, 450), 10);
     eprintln!("c05: {}", st.json());
     out.0[0].meta["generator"] = st.json();
     for c in out.0 { real_out.push(c); }
